@@ -35,9 +35,9 @@ TermElement(t, X, Y) == LET r == ApplyTerm(t, Y) IN IF r.z \/ r.d # X THEN 0 ELS
 
 \* <X| op |Y>
 FOpElement(op, X, Y) ==
-  SumRing([j \in 1..Len(op) |->
+  SumRing(TLCEval([j \in 1..Len(op) |->
             LET e == TermElement(op[j].t, X, Y) IN
-            IF e = 0 THEN RZero ELSE IF e = 1 THEN op[j].c ELSE Neg(op[j].c)], Len(op))
+            IF e = 0 THEN RZero ELSE IF e = 1 THEN op[j].c ELSE Neg(op[j].c)]), Len(op))
 
 Dets(n)          == SUBSET (0..(n-1))
 DetsN(n, ne)     == {D \in Dets(n) : Cardinality(D) = ne}
@@ -52,21 +52,21 @@ NBeta(D, n, utd)   == Cardinality(D \cap BetaModes(n, utd))
 Sector(n, na, nb, utd) == {D \in Dets(n) : NAlpha(D, n, utd) = na /\ NBeta(D, n, utd) = nb}
 
 \* ---- vectors: functions determinant |-> ring element (finite support) ----
-VZero == [D \in {} |-> RZero]
-VClean(v) == LET S == {D \in DOMAIN v : v[D] # RZero} IN [D \in S |-> v[D]]
+VZero == TLCEval([D \in {} |-> RZero])
+VClean(v) == LET S == {D \in DOMAIN v : v[D] # RZero} IN TLCEval([D \in S |-> v[D]])
 VCoef(v, D) == IF D \in DOMAIN v THEN v[D] ELSE RZero
-VAdd(u, v) == VClean([D \in (DOMAIN u) \cup (DOMAIN v) |-> Add(VCoef(u, D), VCoef(v, D))])
-VScale(z, v) == VClean([D \in DOMAIN v |-> Mul(z, v[D])])
-VDet(D) == [X \in {D} |-> ROne]
+VAdd(u, v) == VClean(TLCEval([D \in (DOMAIN u) \cup (DOMAIN v) |-> Add(VCoef(u, D), VCoef(v, D))]))
+VScale(z, v) == VClean(TLCEval([D \in DOMAIN v |-> Mul(z, v[D])]))
+VDet(D) == TLCEval([X \in {D} |-> ROne])
 
 \* t applied to a vector
 VApplyTerm(t, c, v) ==
   LET img == {ApplyTerm(t, D).d : D \in {Y \in DOMAIN v : ~ApplyTerm(t, Y).z}}
-  IN VClean([X \in img |->
+  IN VClean(TLCEval([X \in img |->
        FoldSet(LAMBDA Y, acc : LET r == ApplyTerm(t, Y) IN
                  IF r.z \/ r.d # X THEN acc
                  ELSE Add(acc, Mul(c, IF r.s = 1 THEN v[Y] ELSE Neg(v[Y]))),
-               RZero, DOMAIN v)])
+               RZero, DOMAIN v)]))
 
 RECURSIVE VApplyOpFrom(_, _, _)
 VApplyOpFrom(op, v, j) == IF j = 0 THEN VZero ELSE VAdd(VApplyTerm(op[j].t, op[j].c, v), VApplyOpFrom(op, v, j - 1))
@@ -95,12 +95,12 @@ SpecS2Apply(v, n, utd) ==
 \* ---- the spec's own Jordan-Wigner image of a ladder operator --------------
 \* a_p = Z_0 ... Z_{p-1} (X_p + i Y_p)/2 ,  a+_p = Z_0 ... Z_{p-1} (X_p - i Y_p)/2
 JWLadder(p, dag, n) ==
-  LET wx == [q \in 1..n |-> IF q - 1 < p THEN 3 ELSE IF q - 1 = p THEN 1 ELSE 0]
-      wy == [q \in 1..n |-> IF q - 1 < p THEN 3 ELSE IF q - 1 = p THEN 2 ELSE 0]
+  LET wx == TLCEval([q \in 1..n |-> IF q - 1 < p THEN 3 ELSE IF q - 1 = p THEN 1 ELSE 0])
+      wy == TLCEval([q \in 1..n |-> IF q - 1 < p THEN 3 ELSE IF q - 1 = p THEN 2 ELSE 0])
       h  == Half(ROne)
       ih == Half(RI)
-  IN [w \in {wx, wy} |-> IF w = wx THEN h ELSE IF dag = 1 THEN Neg(ih) ELSE ih]
+  IN TLCEval([w \in {wx, wy} |-> IF w = wx THEN h ELSE IF dag = 1 THEN Neg(ih) ELSE ih])
 
 \* determinant <-> JW basis-state index (qubit p = occupation of mode p, qubit 0 most significant)
-DetIndex(D, n) == SumSeq([q \in 1..n |-> IF (q - 1) \in D THEN Pow2(n - q) ELSE 0], n)
+DetIndex(D, n) == SumSeq(TLCEval([q \in 1..n |-> IF (q - 1) \in D THEN Pow2(n - q) ELSE 0]), n)
 =============================================================================
